@@ -220,7 +220,7 @@ theorem algebra_flags :
     Gen.normMulCountsOnly = true := by decide
 
 theorem glue_pinned :
-    Gen.pinCorrFuncAlgebra = "4c224587b1b5c82b" ∧
+    Gen.pinCorrFuncAlgebra = "a4775d702fd93c3c" ∧
     Gen.pinSampledAlgebra = "5f69cd479b519647" ∧
     Gen.pinSlices = "9219b8533b1b3cad" ∧
     Gen.pinBinningSelect = "1ce535c7babfe3f2" := by decide
